@@ -395,10 +395,9 @@ func (c *cenv) binop(x *CExpr) (Term, error) {
 		if a.Sort != b.Sort {
 			return Term{}, fmt.Errorf("%s on different sorts %s vs %s in %s", op, a.Sort, b.Sort, x)
 		}
+		// == in contracts is logical identity (also for floats: Go's == on
+		// floats is written fpeq32/fpeq64)
 		eq := fmt.Sprintf("(= %s %s)", a.S, b.S)
-		if a.Sort == "F64" || a.Sort == "F32" {
-			eq = fmt.Sprintf("(fp.eq %s %s)", a.S, b.S)
-		}
 		if op == "!=" {
 			eq = "(not " + eq + ")"
 		}
